@@ -138,7 +138,11 @@ JudgeGammaPrec(e) ==
             ELSE V("C17.Gamma", IF e.raised # "" THEN "prec/not_rejected:" \o e.raised
                                 ELSE IF ShippedAccepts(g, e.prec) THEN "prec/within_prec_of_first_child_only"
                                 ELSE "prec/not_rejected"))
-    ELSE IF e.raised # "" THEN V("C17.Gamma", "prec/rejected_within_precision:" \o e.raised)
+    \* within the precision: the tree must not be REJECTED AS NON-ULTRAMETRIC.  Another exception is a clause
+    \* only where the statistic is defined (exactly ultrametric, GammaDefined): on a merely within-precision tree
+    \* the first-child ages can make every waiting time zero and the published formula divides by their sum.
+    ELSE IF e.raised = "UltrametricityError" THEN V("C17.Gamma", "prec/rejected_within_precision:" \o e.raised)
+    ELSE IF e.raised # "" THEN (IF Ultrametric(g, RZero) /\ GammaDefined(g) THEN V("C17.Gamma", "prec/raised:" \o e.raised) ELSE None)
     ELSE IF Ultrametric(g, RZero) /\ ~RatIs(e.v, GammaParts(g).ratio) THEN V("C17.Gamma", "prec/value")
     ELSE None
 
